@@ -48,11 +48,11 @@ Definition core_of (s : st) : core :=
 
 Ltac stsimp := cbn [now boot cycles0 lat lati fired seqc t_wifi t_timer1 t_iter t_wd t_recon t_stop t_value t_gpio2 wstatus wlast
   link liveres deadres script started registered srpc espbuf recvbuf lastresp lastsent nextwd actto resolving gstate conn wbuf
-  stalled outs halted stuck regpay clrstop clrconn
+  stalled outs halted stuck regpay clrstop clrconn evi
   set_now set_boot set_cycles0 set_lat set_lati set_fired set_seqc set_t_wifi set_t_timer1 set_t_iter set_t_wd set_t_recon set_t_stop
   set_t_value set_t_gpio2 set_wstatus set_wlast set_link set_liveres set_deadres set_script set_started set_registered set_srpc
   set_espbuf set_recvbuf set_lastresp set_lastsent set_nextwd set_actto set_resolving set_gstate set_conn set_wbuf set_stalled
-  set_outs set_halted set_stuck set_regpay set_clrstop set_clrconn
+  set_outs set_halted set_stuck set_regpay set_clrstop set_clrconn set_evi
   core_of c_reg c_rpc c_esp c_recv c_link c_cs c_cc c_conn] in *.
 
 (* functions that do not touch the core *)
@@ -575,25 +575,22 @@ Proof.
   { intros e r. pose proof (i_cs _ HI) as F1. pose proof (i_cc _ HI) as F2. cbn in F1, F2.
     constructor; cbn; auto; try (intros; discriminate).
     intros p Hp. inversion Hp; subst p. split; [reflexivity|apply PF]. }
+  assert (AUX : forall s' c0, core_of s' = c0 -> InvC c0 ->
+            Inv s' /\ registered s' = c_reg c0 /\ srpc s' = c_rpc c0 /\ conn s' = c_conn c0 /\ link s' = c_link c0 /\
+            espbuf s' = c_esp c0 /\ recvbuf s' = c_recv c0).
+  { intros s' c0 <- H. split; [exact H|]. repeat split. }
   assert (CC : clrconn s2 = clrconn s) by (change (c_cc (core_of s2) = clrconn s); rewrite C2; reflexivity).
   destruct (clrconn s2) eqn:Ecc.
   - set (s3 := set_recvbuf [] (set_espbuf [] s2)).
     assert (C3 : core_of s3 = with_recv [] (with_esp [] (core_of s2))) by reflexivity. rewrite C2 in C3. cbn in C3.
-    change (core_of (emit O_FRESH ?a s3)) with (core_of s3).
-    repeat split; try (unfold Inv; change (core_of (emit O_FRESH ?a s3)) with (core_of s3); rewrite C3; apply IG);
-      try (change (c_reg (core_of s3) = 0); rewrite C3; reflexivity);
-      try (change (c_rpc (core_of s3) = Some (fresh_instance (conn s + 1) (now s))); rewrite C3; reflexivity);
-      try (change (c_conn (core_of s3) = conn s + 1); rewrite C3; reflexivity);
-      try (change (c_link (core_of s3) = L_LIVE); rewrite C3; reflexivity).
-  - repeat split; try (unfold Inv; change (core_of (emit O_FRESH ?a s2)) with (core_of s2); rewrite C2; apply IG);
-      try (change (c_reg (core_of s2) = 0); rewrite C2; reflexivity);
-      try (change (c_rpc (core_of s2) = Some (fresh_instance (conn s + 1) (now s))); rewrite C2; reflexivity);
-      try (change (c_conn (core_of s2) = conn s + 1); rewrite C2; reflexivity);
-      try (change (c_link (core_of s2) = L_LIVE); rewrite C2; reflexivity).
-    + rewrite <- CC, orb_false_r. intros Hcs. change (c_esp (core_of s2) = []). rewrite C2. cbn.
-      apply (i_none_clean _ HI Hcs Hn).
-    + rewrite <- CC, orb_false_r. intros Hcs. change (c_recv (core_of s2) = []). rewrite C2. cbn.
-      apply (i_none_clean _ HI Hcs Hn).
+    destruct (AUX (emit O_FRESH [now s3; conn s3; len (espbuf s3); len (recvbuf s3); registered s3; evi s3] s3) _ C3 (IG [] []))
+      as [X1 [X2 [X3 [X4 [X5 [X6 X7]]]]]].
+    cbn in X2, X3, X4, X5, X6, X7. repeat (split; auto).
+  - destruct (AUX (emit O_FRESH [now s2; conn s2; len (espbuf s2); len (recvbuf s2); registered s2; evi s2] s2) _ C2 (IG _ _))
+      as [X1 [X2 [X3 [X4 [X5 [X6 X7]]]]]].
+    cbn in X2, X3, X4, X5, X6, X7. split; [exact X1|]. split; [exact X2|]. split; [exact X3|]. split; [exact X4|]. split; [exact X5|].
+    rewrite <- CC, orb_false_r. intros Hcs. destruct (i_none_clean _ HI Hcs Hn) as [Y1 Y2]. cbn in Y1, Y2.
+    split; [exact (eq_trans X6 Y1)|exact (eq_trans X7 Y2)].
 Qed.
 
 Lemma disccb_inv s : Inv s -> Inv (dev_step s DiscCb).
@@ -602,15 +599,15 @@ Proof.
   set (s1 := if link s =? L_LIVE then wire_close s else s).
   assert (C1 : core_of s1 = core_of s) by (subst s1; destruct (_ =? _); [apply core_wire_close|reflexivity]).
   unfold disconnect_cb.
-  set (s2 := set_recvbuf [] (set_espbuf [] (gpio_state_ipreceived (set_link L_IDLE s1)))).
+  set (s1' := emit O_DISCD [now s1; conn s1; evi s1] s1).
+  set (s2 := set_recvbuf [] (set_espbuf [] (gpio_state_ipreceived (set_link L_IDLE s1')))).
   assert (C2 : core_of s2 = with_recv [] (with_esp [] (with_link L_IDLE (core_of s)))).
   { subst s2. change (core_of (set_recvbuf [] (set_espbuf [] ?x))) with (with_recv [] (with_esp [] (core_of x))).
-    rewrite core_gpio_ip. change (core_of (set_link L_IDLE s1)) with (with_link L_IDLE (core_of s1)). rewrite C1. reflexivity. }
+    rewrite core_gpio_ip. change (core_of (set_link L_IDLE s1')) with (with_link L_IDLE (core_of s1)). rewrite C1. reflexivity. }
   assert (I2 : Inv s2).
   { unfold Inv. rewrite C2. destruct consts_ok as [? ? ? ? ? [K1 [K2 [K3 [K4 K5]]]]].
     destruct HI as [FX FY A B C D F G]. constructor; cbn in *; auto. intros Hl. contradiction. }
   destruct (started s2); auto.
-  eapply Inv_core; [|exact I2]. rewrite core_arm, core_disarm. reflexivity.
 Qed.
 
 Lemma dev_step_inv s e : sites_ok CallSites = true -> Inv s -> env_allows s e = true -> Inv (dev_step s e).
@@ -628,7 +625,9 @@ Proof.
 Qed.
 Lemma step_inv s e : sites_ok CallSites = true -> Inv s -> Inv (step s e).
 Proof.
-  intros HS HI. unfold step. destruct (_ || _); auto. destruct (env_allows s e) eqn:E; auto. apply dev_step_inv; auto.
+  intros HS HI. unfold step.
+  assert (HI' : Inv (set_evi (evi s + 1) s)) by (eapply Inv_core; [|eauto]; reflexivity).
+  destruct (_ || _); auto. destruct (env_allows _ e) eqn:E; auto. apply dev_step_inv; auto.
 Qed.
 Lemma run_from_inv evs : forall s, sites_ok CallSites = true -> Inv s -> Inv (run_from s evs).
 Proof. induction evs as [|e r IH]; intros s HS HI; cbn [run_from]; auto. apply IH; auto. apply step_inv; auto. Qed.
@@ -688,9 +687,34 @@ Theorem C04_clean_restart_thm : sites_ok CallSites = true -> forall s,
   espbuf s' = [] /\ recvbuf s' = [] /\ registered s' = 0 /\ srpc s' = Some (fresh_instance (conn s + 1) (now s)) /\ conn s' = conn s + 1.
 Proof.
   intros HS s Hc HR Hh Hst Hl. pose proof (reachable_inv _ HS HR) as HI.
-  unfold step. rewrite Hh, Hst. cbn [orb env_allows]. rewrite Hl, Z.eqb_refl.
-  destruct (conncb_state s HI Hl) as [_ [R [P [Cn [_ B]]]]].
+  unfold step. set (s1 := set_evi (evi s + 1) s).
+  assert (HI1 : Inv s1) by (eapply Inv_core; [|eauto]; reflexivity).
+  change (halted s1) with (halted s). change (stuck s1) with (stuck s). rewrite Hh, Hst. cbn [orb env_allows].
+  change (link s1) with (link s). rewrite Hl, Z.eqb_refl.
+  destruct (conncb_state s1 HI1 Hl) as [_ [R [P [Cn [_ B]]]]].
   pose proof (i_cs _ HI) as F1. pose proof (i_cc _ HI) as F2. cbn in F1, F2.
+  change (clrstop s1) with (clrstop s) in B. change (clrconn s1) with (clrconn s) in B.
   rewrite F1, F2 in B. destruct (B Hc) as [B1 B2]. auto.
 Qed.
 End Flags.
+
+(* ---------- the code before the proposed fix: stale bytes reach the next connection ---------- *)
+(* registered device; the link stalls (espconn_sent answers INPROGRESS), a value change and the pings pile up in
+   esp_send_buffer; the activity timeout reconnects (__stop, no disconnect_cb in between); Wi-Fi comes back, TCP
+   connects: at the connect callback the send buffer still holds the old session's bytes. *)
+Definition regok_frame (tmo : Z) : list Z := encode (SRV_REGISTER_RESULT, 1, enc32 RESULTCODE_TRUE ++ [tmo; DEVICE_PROTO_VERSION; 1]).
+Definition witness_evs : list ev :=
+  [Adv 300000; Wifi STATION_GOT_IP_; Adv 300000; ConnCb; Adv 500000; Recv (regok_frame 10); Adv 3000000;
+   SentMode ESP_INPROGRESS; Local 0; Adv 13000000; Adv 5000000; Wifi STATION_GOT_IP_; Adv 300000; SentMode 0; ConnCb].
+Definition witness_final (cs cc : bool) : st :=
+  run_from (boot_device 0 0 ESP_ARG (zeros (REG_BASE_SIZE + 2 * REG_CHANNEL_SIZE)) [] cs cc) witness_evs.
+
+Lemma C04_old_code_refuted_thm :
+  let s := witness_final false false in
+  conn s = 2 /\ registered s = 0 /\ 0 < len (espbuf s) /\ halted s = false /\ stuck s = false /\
+  (exists p, srpc s = Some p /\ hist p = []).
+Proof. vm_compute. repeat split; try congruence. eexists; split; reflexivity. Qed.
+
+Lemma C04_witness_repaired_thm :
+  espbuf (witness_final true false) = [] /\ espbuf (witness_final false true) = [] /\ conn (witness_final true false) = 2.
+Proof. vm_compute. repeat split. Qed.
